@@ -165,7 +165,9 @@ def r05_6(ctx):
             ok = "self.bind_qname" in names and any(a.endswith("check_duplicate_attr") for a in names) and names.index("self.bind_qname") < [i for i, a in enumerate(names) if a.endswith("check_duplicate_attr")][0]
     ctx.ob("R05.6", "xml-duplicate-test-after-binding", ok, "a prefixed attribute is bound first and then checked against the (ns, local) set, unconditionally")
     key, pcs = nfq.cells(ctx, "xml_tree_builder", "::check_duplicate_attr")
-    ok = any("contains" in g for pc in pcs for g in pc["guards"]) and any("(p2.ns,p2.local)" in str(pc["actions"]) + str(list(pc["guards"])) for pc in pcs)
+    # the membership test is made with the pair (ns, local): either `contains(key)` before `insert(key)` or the answer of `insert(key)` itself
+    keyed = any("(p2.ns,p2.local)" in str(pc["actions"]) + str(list(pc["guards"])) + str(pc["ret"]) for pc in pcs)
+    ok = keyed and (any("contains" in g for pc in pcs for g in pc["guards"]) or any(".insert((p2.ns,p2.local))" in str(pc["ret"]) + " ".join(pc["guards"]) for pc in pcs))
     ctx.ob("R05.6", "xml-duplicate-key-is-expanded-name", ok, "the key is (name.ns, name.local)")
     # HTML: tokenizer de-duplication by local name (normal form of finish_attribute)
     T = ctx.tables("html")
